@@ -34,7 +34,9 @@ CHECKS = {
         text="Same machinery on the counterparty side (sign-counterparty-commitment / validate-revocation with right, wrong, "
              "stale, future and other-tree secrets; BOLT-3 compact secret store modelled slot by slot): ghost monitors for "
              "'all numbers below n-1 revoked when n is signed', 'at most two unrevoked signed numbers', 'accepted secret = "
-             "secret of the signed point, consistent with derivable earlier secrets', 'one point/content per number'.",
+             "secret of the signed point, consistent with derivable earlier secrets', 'one point/content per number'. The "
+             "counter discipline (first two clauses) is also PROVED for unbounded numbers on the abstraction CpAbs.tla "
+             "with TLAPS (27 obligations), which Channel.tla is checked by TLC to refine.",
         technique="TLA+ spec + TLC model checking; implementation state-graph extraction validated edge-by-edge and "
                   "monitored by TLC; simulated behaviours replayed and trace-validated"),
     "C10": dict(
